@@ -37,7 +37,8 @@ V_ENSURES(zck->comp.type == ZCK_COMP_ZSTD || (zck->comp.data == V_OLD(zck->comp.
 V_ENSURES(zck->comp.type != ZCK_COMP_ZSTD || V_OLD(zck->error_state) > 0 || (zck->comp.data == NULL && zck->comp.data_size == 0)) \
 V_ENSURES(zck->comp.type != ZCK_COMP_ZSTD || zck->comp.dc_data == V_OLD(zck->comp.dc_data) || zck->comp.dc_data == NULL || __CPROVER_is_fresh(zck->comp.dc_data, zck->comp.dc_data_size)) \
 V_ENSURES(zck->comp.type != ZCK_COMP_ZSTD || !__CPROVER_return_value || (V_OLD(zck->error_state) == 0 && zck->comp.dc_data != NULL && zck->comp.dc_data != V_OLD(zck->comp.dc_data) && zck->comp.dc_data_loc == 0 && zck->comp.dc_data_size == V_OLD(zck->comp.dc_data_size) - V_OLD(zck->comp.dc_data_loc) + fd_size && zck->comp.dc_data_size >= fd_size)) /*@C02.end_dchunk.appends_exactly_the_declared_size*/ \
-V_ENSURES(zck->comp.type != ZCK_COMP_ZSTD || __CPROVER_return_value || (zck->comp.dc_data == V_OLD(zck->comp.dc_data) && zck->comp.dc_data_size == V_OLD(zck->comp.dc_data_size) && zck->comp.dc_data_loc == V_OLD(zck->comp.dc_data_loc)))
+V_ENSURES(zck->comp.type != ZCK_COMP_ZSTD || __CPROVER_return_value || (zck->comp.dc_data == V_OLD(zck->comp.dc_data) && zck->comp.dc_data_size == V_OLD(zck->comp.dc_data_size) && zck->comp.dc_data_loc == V_OLD(zck->comp.dc_data_loc))) \
+V_ENSURES(!__CPROVER_return_value || (V_OLD(zck->error_state) == 0 && zck->error_state == 0)) /*@C12,C15.end_dchunk.never_succeeds_on_a_context_in_error*/
 bool verif_end_dchunk(zckCtx *zck, zckComp *comp, const bool use_dict, const size_t fd_size)
 CONTRACT_END_DCHUNK
 ;
@@ -85,6 +86,11 @@ V_ENSURES(__CPROVER_return_value)
 #define RD_CUR(z) ((z)->comp.data_idx)
 #define RD_F(p, f) ((p) == g_n1 ? g_n1->f : (p) == g_n2 ? g_n2->f : g_n3->f)
 #define RD_CUR_F(z, f) RD_F(RD_CUR(z), f)
+#ifdef VERIF_CTL
+#define RD_CUR_CLEN(z) ((z)->comp.data_idx->comp_length)   /* arbitrary list: the current node itself */
+#else
+#define RD_CUR_CLEN(z) RD_CUR_F(z, comp_length)
+#endif
 #define RD_NEXT_OF(p) ((p) == g_n1 ? g_n2 : (p) == g_n2 ? g_n3 : (zckChunk *)NULL)
 #define RD_STATE_WF(z) (RD_IN_LIST(z, RD_CUR(z)) && DC_WF(&(z)->comp) && DATA_WF(&(z)->comp) && (z)->comp.data_size <= (z)->comp.data_loc && \
     (RD_CUR(z) == NULL ? (z)->comp.data_loc == 0 : (z)->comp.data_loc <= RD_CUR_F(z, comp_length)) && \
@@ -102,14 +108,15 @@ V_ENSURES(__CPROVER_return_value)
  * uncompressed codec moves the compressed-side buffer to the decoded side */
 #define CONTRACT_DECOMPRESS \
 V_REQUIRES(__CPROVER_rw_ok(zck, sizeof(*zck)) && comp == &zck->comp) \
-V_REQUIRES(DC_WF(comp) && DATA_WF(comp) && comp->data != NULL && comp->data_size > 0) \
+V_REQUIRES_WF(DC_WF(comp) && DATA_WF(comp) && comp->data != NULL && comp->data_size > 0) \
 V_ASSIGNS(zck->comp.data, zck->comp.data_size, zck->comp.dc_data, zck->comp.dc_data_size, zck->comp.dc_data_loc, zck->error_state) \
 V_FREES_HOOK(zck->comp.data, zck->comp.dc_data) \
 V_ENSURES(zck->comp.type != ZCK_COMP_ZSTD || (zck->comp.data == V_OLD(zck->comp.data) && zck->comp.data_size == V_OLD(zck->comp.data_size) && zck->comp.dc_data == V_OLD(zck->comp.dc_data) && zck->comp.dc_data_size == V_OLD(zck->comp.dc_data_size) && zck->comp.dc_data_loc == V_OLD(zck->comp.dc_data_loc))) \
 V_ENSURES(zck->comp.type != ZCK_COMP_ZSTD || __CPROVER_return_value == (zck->error_state == 0)) \
 V_ENSURES(zck->comp.type == ZCK_COMP_ZSTD || zck->comp.dc_data == V_OLD(zck->comp.dc_data) || zck->comp.dc_data == NULL || __CPROVER_is_fresh(zck->comp.dc_data, zck->comp.dc_data_size)) \
 V_ENSURES(zck->comp.type == ZCK_COMP_ZSTD || !__CPROVER_return_value || (zck->comp.data == NULL && zck->comp.data_size == 0 && zck->comp.dc_data != NULL && zck->comp.dc_data_loc == 0 && zck->comp.dc_data_size == V_OLD(zck->comp.dc_data_size) - V_OLD(zck->comp.dc_data_loc) + V_OLD(zck->comp.data_size) && zck->comp.dc_data_size >= V_OLD(zck->comp.data_size))) \
-V_ENSURES(zck->comp.type == ZCK_COMP_ZSTD || __CPROVER_return_value || zck->error_state > 0 || zck->comp.dc_data_loc <= zck->comp.dc_data_size)
+V_ENSURES(zck->comp.type == ZCK_COMP_ZSTD || __CPROVER_return_value || zck->error_state > 0 || zck->comp.dc_data_loc <= zck->comp.dc_data_size) \
+V_ENSURES(!__CPROVER_return_value || (V_OLD(zck->error_state) == 0 && zck->error_state == 0)) /*@C12,C15.decompress.never_succeeds_on_a_context_in_error*/
 bool verif_decompress(zckCtx *zck, zckComp *comp, const bool use_dict)
 CONTRACT_DECOMPRESS
 ;
@@ -121,13 +128,15 @@ V_REQUIRES(__CPROVER_rw_ok(zck, sizeof(*zck)) && comp == &zck->comp && DC_WF(com
 V_REQUIRES(src == NULL || src_size == 0 || __CPROVER_r_ok(src, src_size))
 V_ASSIGNS(zck->comp.dc_data, zck->comp.dc_data_size, zck->comp.dc_data_loc, zck->error_state)
 V_FREES(zck->comp.dc_data)
-V_ENSURES(__CPROVER_return_value == (V_OLD(zck->error_state) == 0 && src != NULL)) /*@C03.comp_add_to_dc.succeeds_iff_usable*/
+V_ENSURES(!__CPROVER_return_value || (V_OLD(zck->error_state) == 0 && src != NULL)) /*@C03.comp_add_to_dc.succeeds_only_if_usable*/   /* may also fail for lack of memory */
 V_ENSURES(!__CPROVER_return_value || (__CPROVER_is_fresh(zck->comp.dc_data, zck->comp.dc_data_size) && zck->comp.dc_data_loc == 0 && zck->comp.dc_data_size == V_OLD(zck->comp.dc_data_size) - V_OLD(zck->comp.dc_data_loc) + src_size && zck->comp.dc_data_size >= src_size)) /*@C02,C03.comp_add_to_dc.unread_plus_new*/
 V_ENSURES(__CPROVER_return_value || (zck->comp.dc_data == V_OLD(zck->comp.dc_data) && zck->comp.dc_data_size == V_OLD(zck->comp.dc_data_size) && zck->comp.dc_data_loc == V_OLD(zck->comp.dc_data_loc))) /*@C03.comp_add_to_dc.untouched_on_failure*/
+V_ENSURES(!__CPROVER_return_value || zck->error_state == 0) /*@C12.comp_add_to_dc.success_leaves_no_error*/
 ;
 
 static size_t comp_read_from_dc(zckCtx *zck, zckComp *comp, char *dst, size_t dst_size)
-V_REQUIRES(__CPROVER_rw_ok(zck, sizeof(*zck)) && comp == &zck->comp && DC_WF(comp))
+V_REQUIRES(__CPROVER_rw_ok(zck, sizeof(*zck)) && comp == &zck->comp)
+V_REQUIRES_WF(DC_WF(comp))
 V_REQUIRES(dst == NULL || dst_size == 0 || __CPROVER_w_ok(dst, dst_size))
 V_ASSIGNS(zck->comp.dc_data_loc, zck->error_state; dst != NULL && dst_size > 0: __CPROVER_object_upto(dst, dst_size))
 V_ENSURES((V_OLD(zck->error_state) > 0 || dst == NULL) ? (__CPROVER_return_value == (size_t)-1 && zck->comp.dc_data_loc == V_OLD(zck->comp.dc_data_loc)) : (__CPROVER_return_value == (dst_size < (V_OLD(zck->comp.dc_data_size) - V_OLD(zck->comp.dc_data_loc)) ? dst_size : (V_OLD(zck->comp.dc_data_size) - V_OLD(zck->comp.dc_data_loc))) && zck->comp.dc_data_loc == V_OLD(zck->comp.dc_data_loc) + __CPROVER_return_value)) /*@C03,C02.comp_read_from_dc.hands_out_min_of_request_and_buffered*/
@@ -135,7 +144,8 @@ V_ENSURES(V_OLD(zck->error_state) > 0 || dst == NULL || zck->error_state == V_OL
 ;
 
 static bool comp_add_to_data(zckCtx *zck, zckComp *comp, const char *src, size_t src_size)
-V_REQUIRES(__CPROVER_rw_ok(zck, sizeof(*zck)) && comp == &zck->comp && DATA_WF(comp))
+V_REQUIRES(__CPROVER_rw_ok(zck, sizeof(*zck)) && comp == &zck->comp)
+V_REQUIRES_WF(DATA_WF(comp))
 V_REQUIRES(src == NULL || src_size == 0 || __CPROVER_r_ok(src, src_size))
 V_ASSIGNS(zck->comp.data, zck->comp.data_size, zck->comp.data_loc, zck->error_state)
 V_FREES_CALLEE(zck->comp.data)
@@ -143,12 +153,19 @@ V_ENSURES(!__CPROVER_return_value || (V_OLD(zck->error_state) == 0 && zck->error
 V_ENSURES(!__CPROVER_return_value || __CPROVER_is_fresh(zck->comp.data, zck->comp.data_size)) /*@C03.comp_add_to_data.buffer_holds_data_size_bytes*/
 ;
 
+/* what the control-only units keep of the reader invariant: the codec hooks are the contract-bearing
+ * stand-ins, the two running hashes are closed or typed with the context's own checksum types, and no stored
+ * byte has been consumed while no chunk is current (all three are parts of RD_WF) */
+#define RD_CTL(z) (RD_HOOKS(z) && ((z)->check_chunk_hash.type == NULL || (z)->check_chunk_hash.type == &(z)->chunk_hash_type) && ((z)->check_full_hash.type == NULL || (z)->check_full_hash.type == &(z)->hash_type) && ((z)->comp.data_idx != NULL || (z)->comp.data_loc == 0))
+
 bool import_dict(zckCtx *zck)
-V_REQUIRES(__CPROVER_rw_ok(zck, sizeof(*zck)) && RD_WF(zck))
+V_REQUIRES(__CPROVER_rw_ok(zck, sizeof(*zck)))
+V_REQUIRES_WF(RD_WF(zck))
 V_ASSIGNS(zck->comp, zck->check_chunk_hash.type, zck->check_chunk_hash.ctx, zck->error_state, g_hu_total, g_hu_seen, g_hu_ptr, g_hu_final, g_hu_inits, g_fin_val, g_fin_total, g_fin_seen, g_fin_ptr, g_fpos, g_rd_bytes, g_io_failed, g_last_read, g_watch_seen, g_watch_val; RD_VALID_TARGETS(zck))
 V_ENSURES(!__CPROVER_return_value || (V_OLD(zck->error_state) == 0 && zck->error_state == 0)) /*@C12.import_dict.never_succeeds_with_an_error*/
-V_ENSURES(!__CPROVER_return_value || RD_N1(zck)->length == 0 || (zck->comp.dict != NULL && zck->comp.dict_size == RD_N1(zck)->length && zck->comp.started != 0)) /*@C14.import_dict.dictionary_loaded*/
-V_ENSURES(!__CPROVER_return_value || (RD_HOOKS(zck) && RD_STATE_WF(zck))) /*@C14.import_dict.keeps_reader_invariant*/
+V_ENSURES_WF(!__CPROVER_return_value || RD_N1(zck)->length == 0 || (zck->comp.dict != NULL && zck->comp.dict_size == RD_N1(zck)->length && zck->comp.started != 0)) /*@C14.import_dict.dictionary_loaded*/
+V_ENSURES_WF(!__CPROVER_return_value || (RD_HOOKS(zck) && RD_STATE_WF(zck))) /*@C14.import_dict.keeps_reader_invariant*/
+V_ENSURES(!__CPROVER_return_value || RD_CTL(zck)) /*@C14.import_dict.keeps_hooks_and_hash_types*/
 V_ENSURES(!__CPROVER_return_value || g_hu_hash != &zck->check_full_hash || (g_hu_final == V_OLD(g_hu_final) && (zck->has_uncompressed_source != 0 || g_hu_total - V_OLD(g_hu_total) == g_rd_bytes[G_IX(zck->fd)] - V_OLD(g_rd_bytes[G_IX(zck->fd)])))) /*@C02.import_dict.every_byte_read_is_fed_to_the_data_checksum*/
 ;
 
@@ -167,16 +184,17 @@ V_ENSURES(!__CPROVER_return_value || g_hu_hash != &zck->check_full_hash || (g_hu
  * which the format defines no data checksum); the running chunk hash is fed exactly the stored bytes
  * of the current chunk (part of RD_WF).  C15/C12: no success value once an error arose. */
 ssize_t comp_read(zckCtx *zck, char *dst, size_t dst_size, bool use_dict)
-V_REQUIRES(__CPROVER_rw_ok(zck, sizeof(*zck)) && RD_WF(zck))
+V_REQUIRES(__CPROVER_rw_ok(zck, sizeof(*zck)) && RD_CTL(zck))
+V_REQUIRES_WF(RD_WF(zck))
 V_REQUIRES(dst != NULL && (dst_size == 0 || __CPROVER_w_ok(dst, dst_size)))   /* every caller passes a buffer (zck_read checks, import_dict allocates) */
-V_REQUIRES(!g_canon_on || RD_CANON(zck, g_canon_idx)) /*@C14.comp_read.random_access_starts_from_the_canonical_state*/
+V_REQUIRES_WF(!g_canon_on || RD_CANON(zck, g_canon_idx)) /*@C14.comp_read.random_access_starts_from_the_canonical_state*/
 V_ASSIGNS(zck->comp, zck->check_chunk_hash.type, zck->check_chunk_hash.ctx, zck->error_state, g_hu_total, g_hu_seen, g_hu_ptr, g_hu_final, g_hu_inits, g_fin_val, g_fin_total, g_fin_seen, g_fin_ptr, g_fpos, g_rd_bytes, g_io_failed, g_last_read, g_watch_seen, g_watch_val; dst != NULL && dst_size > 0: __CPROVER_object_upto(dst, dst_size); RD_VALID_TARGETS(zck))
 V_ENSURES(__CPROVER_return_value >= -2 && (__CPROVER_return_value < 0 || (size_t)__CPROVER_return_value <= dst_size)) /*@C03,C02.comp_read.never_more_than_asked*/
 V_ENSURES(__CPROVER_return_value < 0 || (V_OLD(zck->error_state) == 0 && zck->error_state == 0 && zck->mode == ZCK_MODE_READ)) /*@C15,C02,C12.comp_read.no_success_once_an_error_arose*/
-V_ENSURES(__CPROVER_return_value < 0 || (RD_HOOKS(zck) && RD_STATE_WF(zck))) /*@C02,C14,C03.comp_read.keeps_reader_invariant*/
+V_ENSURES_WF(__CPROVER_return_value < 0 || (RD_HOOKS(zck) && RD_STATE_WF(zck))) /*@C02,C14,C03.comp_read.keeps_reader_invariant*/
 V_ENSURES(__CPROVER_return_value < 0 || g_hu_hash != &zck->check_full_hash || zck->has_uncompressed_source != 0 || g_hu_total - V_OLD(g_hu_total) == g_rd_bytes[G_IX(zck->fd)] - V_OLD(g_rd_bytes[G_IX(zck->fd)])) /*@C02.comp_read.every_byte_read_is_fed_to_the_data_checksum*/
 V_ENSURES(__CPROVER_return_value < 0 || g_hu_hash != &zck->check_full_hash || g_hu_final == V_OLD(g_hu_final)) /*@C02.comp_read.data_checksum_not_finalised_by_reads*/
-V_ENSURES(__CPROVER_return_value < 0 || !use_dict || dst_size == 0 || g_n1->length == 0 || zck->comp.dict != NULL) /*@C14.comp_read.dictionary_loaded_before_any_dictionary_read*/
+V_ENSURES_WF(__CPROVER_return_value < 0 || !use_dict || dst_size == 0 || g_n1->length == 0 || zck->comp.dict != NULL) /*@C14.comp_read.dictionary_loaded_before_any_dictionary_read*/
 ;
 
 /* ---- random access (C14) --------------------------------------------------------------------- */
@@ -214,23 +232,27 @@ V_ENSURES(__CPROVER_return_value < 0 || (V_OLD(g_n1->zck->error_state) == 0 && g
  * Watched hash: &zck->check_chunk_hash. */
 static ssize_t comp_end_dchunk(zckCtx *zck, bool use_dict, size_t fd_size)
 V_REQUIRES(__CPROVER_rw_ok(zck, sizeof(*zck)))
-V_REQUIRES(RD_LIST_WF(zck) && zck->comp.data_idx != NULL && RD_IN_LIST(zck, zck->comp.data_idx))
+V_REQUIRES(zck->comp.data_idx != NULL)
+V_REQUIRES_WF(RD_LIST_WF(zck) && RD_IN_LIST(zck, zck->comp.data_idx))
 V_REQUIRES(zck->check_chunk_hash.type == NULL || zck->check_chunk_hash.type == &zck->chunk_hash_type)
 /* C02/C09: a chunk's end is processed only when exactly its stored size has been consumed and hashed */
-V_REQUIRES(zck->comp.data_loc == RD_CUR_F(zck, comp_length)) /*@C02.comp_end_dchunk.requires_whole_chunk_consumed*/
-V_REQUIRES(g_hu_hash != &zck->check_chunk_hash || zck->check_chunk_hash.ctx == NULL || g_hu_total == RD_CUR_F(zck, comp_length))
-V_REQUIRES(zck->comp.end_dchunk == verif_end_dchunk && DC_WF(&zck->comp) && DATA_WF(&zck->comp))
+V_REQUIRES(zck->comp.data_loc == RD_CUR_CLEN(zck)) /*@C02.comp_end_dchunk.requires_whole_chunk_consumed*/
+V_REQUIRES_WF(g_hu_hash != &zck->check_chunk_hash || zck->check_chunk_hash.ctx == NULL || g_hu_total == RD_CUR_F(zck, comp_length))
+V_REQUIRES(zck->comp.end_dchunk == verif_end_dchunk)
+V_REQUIRES_WF(DC_WF(&zck->comp) && DATA_WF(&zck->comp))
 /* a streaming codec has already moved every buffered stored byte to the decoded side (its decompress hook ran) */
-V_REQUIRES(zck->comp.type == ZCK_COMP_ZSTD || zck->comp.data_size == 0)
+V_REQUIRES_WF(zck->comp.type == ZCK_COMP_ZSTD || zck->comp.data_size == 0)
 V_ASSIGNS(zck->comp.data, zck->comp.data_size, zck->comp.dc_data, zck->comp.dc_data_size, zck->comp.dc_data_loc, zck->comp.data_loc, zck->comp.data_idx, zck->check_chunk_hash.type, zck->check_chunk_hash.ctx, zck->error_state, g_hu_total, g_hu_seen, g_hu_ptr, g_hu_final, g_hu_inits, g_fin_val, g_fin_total, g_fin_seen, g_fin_ptr; zck->comp.data_idx == g_n1 && g_n1 != NULL: g_n1->valid; zck->comp.data_idx == g_n2 && g_n2 != NULL: g_n2->valid; zck->comp.data_idx == g_n3 && g_n3 != NULL: g_n3->valid)
 V_FREES_CALLEE(zck->comp.dc_data, zck->comp.data, zck->check_chunk_hash.ctx)
 V_ENSURES(__CPROVER_return_value < 1 || g_hu_hash != &zck->check_chunk_hash || (g_hu_final == V_OLD(g_hu_final) + 1 && g_fin_total == V_OLD(g_hu_total) && g_fin_seen == V_OLD(g_hu_seen))) /*@C15,C02.comp_end_dchunk.accepted_only_after_the_chunk_hash_was_finalised_over_all_its_bytes*/
-V_ENSURES(__CPROVER_return_value < 1 || g_hu_hash != &zck->check_chunk_hash || RD_F(V_OLD(zck->comp.data_idx), comp_length) == 0 || !(g_k1 < (size_t)RD_F(V_OLD(zck->comp.data_idx), digest_size)) || g_fin_val == RD_F(V_OLD(zck->comp.data_idx), digest)[g_k1]) /*@C15,C02.comp_end_dchunk.accepted_only_if_every_digest_byte_equal*/
+V_ENSURES_WF(__CPROVER_return_value < 1 || g_hu_hash != &zck->check_chunk_hash || RD_F(V_OLD(zck->comp.data_idx), comp_length) == 0 || !(g_k1 < (size_t)RD_F(V_OLD(zck->comp.data_idx), digest_size)) || g_fin_val == RD_F(V_OLD(zck->comp.data_idx), digest)[g_k1]) /*@C15,C02.comp_end_dchunk.accepted_only_if_every_digest_byte_equal*/
 V_ENSURES(__CPROVER_return_value >= 1 || zck->error_state == 2 || ((V_OLD(zck->error_state) > 0 || zck->mode != ZCK_MODE_READ) && zck->error_state > 0)) /*@C15,C02.comp_end_dchunk.rejected_chunk_leaves_sticky_error*/
-V_ENSURES(__CPROVER_return_value < 1 || (zck->comp.data_idx == RD_NEXT_OF(V_OLD(zck->comp.data_idx)) && zck->comp.data_loc == 0 && zck->check_chunk_hash.ctx != NULL && zck->check_chunk_hash.type == &zck->chunk_hash_type)) /*@C02,C14.comp_end_dchunk.advances_to_next_chunk_with_fresh_hash*/
-V_ENSURES(__CPROVER_return_value < 1 || V_OLD(zck->error_state) == 0) /*@C12.comp_end_dchunk.never_succeeds_on_a_context_in_error*/
+V_ENSURES_WF(__CPROVER_return_value < 1 || (zck->comp.data_idx == RD_NEXT_OF(V_OLD(zck->comp.data_idx)) && zck->comp.data_loc == 0 && zck->check_chunk_hash.ctx != NULL && zck->check_chunk_hash.type == &zck->chunk_hash_type)) /*@C02,C14.comp_end_dchunk.advances_to_next_chunk_with_fresh_hash*/
+V_ENSURES(__CPROVER_return_value < 1 || (zck->comp.data_loc == 0 && zck->check_chunk_hash.ctx != NULL && zck->check_chunk_hash.type == &zck->chunk_hash_type)) /*@C02.comp_end_dchunk.next_chunk_starts_at_zero_with_fresh_hash*/
+V_ENSURES(__CPROVER_return_value < 1 || (V_OLD(zck->error_state) == 0 && zck->error_state == 0)) /*@C12.comp_end_dchunk.never_succeeds_on_a_context_in_error*/
+V_ENSURES(g_hu_hash == &zck->check_chunk_hash || (g_hu_total == V_OLD(g_hu_total) && g_hu_seen == V_OLD(g_hu_seen) && g_hu_ptr == V_OLD(g_hu_ptr) && g_hu_final == V_OLD(g_hu_final) && g_hu_inits == V_OLD(g_hu_inits))) /*@C02.comp_end_dchunk.other_hash_untouched*/
 V_ENSURES(zck->comp.dc_data_loc <= zck->comp.dc_data_size) /*@C03.comp_end_dchunk.dc_buffer_cursor_inside*/
 V_ENSURES(__CPROVER_return_value < 1 || g_hu_hash != &zck->check_chunk_hash || g_hu_total == 0) /*@C02.comp_end_dchunk.next_chunk_starts_with_empty_hash*/
-V_ENSURES(__CPROVER_return_value < 1 || (DC_WF(&zck->comp) && DATA_WF(&zck->comp) && zck->comp.data_size == 0)) /*@C03.comp_end_dchunk.buffers_consistent*/
+V_ENSURES_WF(__CPROVER_return_value < 1 || (DC_WF(&zck->comp) && DATA_WF(&zck->comp) && zck->comp.data_size == 0)) /*@C03.comp_end_dchunk.buffers_consistent*/
 ;
 #endif
